@@ -323,7 +323,7 @@ def generate(rs, mode, tier, index):
             if rng.coin(0.6):
                 ctor["K"] = rng.choice(["Ks", "Kv0", "Km"])
             if rng.coin(0.6):
-                ctor["baseline"] = rng.choice(["bs", "bv0"])
+                ctor["baseline"] = rng.choice(["bs", "bv0", "bvz"])
             if rng.coin(0.6):
                 src = rng.choice([n for n in meta["n_src"] if not n.startswith("SF")])
                 kk = meta["n_src"][src]
